@@ -33,18 +33,19 @@ const (
 
 // Result is the outcome of one scenario.
 type Result struct {
-	ID         string           `json:"id"`
-	Verdict    string           `json:"verdict"`
-	Key        string           `json:"key,omitempty"`    // identifies the failing input/program/history class (known-findings key)
-	Detail     string           `json:"detail,omitempty"` // witness
-	Nontrivial bool             `json:"nontrivial"`
-	Sig        string           `json:"sig,omitempty"` // distinctness signature
-	Events     int64            `json:"events,omitempty"`
-	Distinct   int64            `json:"distinct,omitempty"` // distinct non-trivial cases inside this scenario, counted by the scenario (batches)
-	Sample     interface{}      `json:"sample,omitempty"`
-	Stats      map[string]int64 `json:"stats,omitempty"` // additive counters
-	Sets       map[string][]string `json:"sets,omitempty"` // sets to union across scenarios (e.g. interleaving signatures)
-	More       []Result         `json:"more,omitempty"` // additional violations found by the same scenario
+	ID         string              `json:"id"`
+	Verdict    string              `json:"verdict"`
+	Key        string              `json:"key,omitempty"`    // identifies the failing input/program/history class (known-findings key)
+	Detail     string              `json:"detail,omitempty"` // witness
+	Nontrivial bool                `json:"nontrivial"`
+	Sig        string              `json:"sig,omitempty"` // distinctness signature
+	Events     int64               `json:"events,omitempty"`
+	Distinct   int64               `json:"distinct,omitempty"` // distinct non-trivial cases inside this scenario, counted by the scenario (batches)
+	Sample     interface{}         `json:"sample,omitempty"`
+	Stats      map[string]int64    `json:"stats,omitempty"` // additive counters
+	Sets       map[string][]string `json:"sets,omitempty"`  // sets to union across scenarios (e.g. interleaving signatures)
+	More       []Result            `json:"more,omitempty"`  // additional violations found by the same scenario
+	extra      bool
 }
 
 // Scenario is one unit of work.
@@ -506,6 +507,7 @@ func finish(c Check, tier string, seed uint64, agg *aggregate, runDir string, st
 			if m.ID == "" {
 				m.ID = r.ID
 			}
+			m.extra = true
 			flat = append(flat, m)
 		}
 	}
@@ -540,7 +542,9 @@ func finish(c Check, tier string, seed uint64, agg *aggregate, runDir string, st
 			evals++
 			continue
 		case Violated:
-			evals++
+			if !r.extra {
+				evals++
+			}
 			if kf := known(r.Key); kf != nil {
 				knownSeen[kf.Key] = kf
 				knownCount[kf.Key]++
